@@ -672,6 +672,14 @@ func TestC15Deadlines(t *testing.T) {
 			t1, t2 = []uint32{60, 61, lease / 2, lease - 1}[r.Intn(4)], []uint32{lease, lease - 1, lease + 1, lease / 2}[r.Intn(4)]
 		case 3:
 			t1, t2 = r.Uint32(), r.Uint32()
+			switch r.Intn(4) {
+			case 0: // only one of the two timers is announced
+				t2 = 0
+				t1 = lease - 1 - uint32(r.Int63n(int64(lease/8)))
+			case 1:
+				t1 = 0
+				t2 = 61 + uint32(r.Int63n(int64(lease)))
+			}
 		}
 		synctest.Test(t, func(t *testing.T) {
 			ctx, cancel := context.WithCancel(context.Background())
